@@ -663,6 +663,8 @@ def _run_case(case, ctx, enum=False):
                 classes.add(f"faults-fired:{min(fired, 3)}")
                 if any(c.disc_in_txn for c in run.conns):
                     classes.add("disconnect-with-transaction-open")
+                if "fired:connect:disc" in run.cls and any(k.startswith("fired:") and k.endswith(":err") and "connect" not in k for k in run.cls):
+                    classes.add("failed-reconnect-then-ordinary-error")
                 if nontrivial:
                     classes.add("NONTRIVIAL")
                 ctx.note({"cfg": case["cfg"], "ops": case["ops"], "plan": case["plan"]}, nontrivial, classes=sorted(classes))
@@ -728,6 +730,13 @@ def _cases(draw):
         ops = head + ops[: draw(st.integers(1, 6))] + tail
         if not any(f[0] in ("execute", "cursor") and f[2] == "disconnect" for f in plan):
             plan = [["execute", draw(st.integers(2, 4)), "disconnect"]] + [f for f in plan if f[0] != "execute"]
+    elif draw(st.integers(0, 5)) == 0:
+        # scenario: disconnect, then the transparent reconnect itself fails with a disconnect-classified connect error (server still
+        # down), then the server is back, then an ORDINARY error: it must not be treated as a disconnect
+        site = draw(st.sampled_from(["execute", "cursor"]))
+        plan = [[site, 1, "disconnect"], ["connect", 0, "disconnect"], [draw(st.sampled_from(["execute", "cursor"])), draw(st.integers(3, 5)), "error"]]
+        ops = [["exec", 0], ["exec", 0], ["rollback", 0], ["exec", 0], ["exec", 0], ["exec", 0], ["exec", 0], ["exec", 0], ["exec", 0]] + ops[: draw(st.integers(0, 5))]
+        cfg = dict(cfg, listener=draw(st.sampled_from(["none", "nopool"])))
     return {"cfg": cfg, "ops": ops, "plan": plan}
 
 
